@@ -48,6 +48,12 @@ func runHarness(ld *Loaded, fn *ssa.Function, cfg *RunConfig) (h *HarnessRun, e 
 		return
 	}
 	e.sol = sol
+	sol.resetMode = os.Getenv("VERIF_RESET") != ""
+	if p := os.Getenv("VERIF_SOLVERLOG"); p != "" {
+		if f, err := os.Create(p + "." + fn.Name() + ".smt2"); err == nil {
+			sol.log = f
+		}
+	}
 	defer sol.Close()
 	for _, p := range initAllow {
 		e.initPkgs[p] = true
@@ -214,7 +220,7 @@ func cmdRun(args []string) int {
 	fs.StringVar(&cfg.Only, "harness", "", "only harnesses containing this substring")
 	fs.BoolVar(&cfg.Verbose, "v", false, "verbose")
 	fs.IntVar(&cfg.Workers, "j", 14, "parallel harnesses")
-	fs.StringVar(&cfg.Solver, "solver", "z3", "solver binary")
+	fs.StringVar(&cfg.Solver, "solver", "z3-new", "solver binary")
 	fs.IntVar(&cfg.TimeoutMs, "timeout", 0, "per-query timeout ms")
 	fs.BoolVar(&cfg.NoMerge, "nomerge", false, "disable state merging")
 	fs.BoolVar(&cfg.NoReplay, "noreplay", false, "skip native replay")
@@ -238,6 +244,12 @@ func cmdRun(args []string) int {
 	loadSecs := time.Since(start).Seconds()
 	var hs []*ssa.Function
 	for _, fn := range ld.Harnesses {
+		if strings.Contains(fn.Name(), "_thorough") && cfg.Tier != "thorough" {
+			continue
+		}
+		if strings.Contains(fn.Name(), "_quick") && cfg.Tier != "quick" {
+			continue
+		}
 		if cfg.Only == "" || strings.Contains(fn.Name(), cfg.Only) {
 			hs = append(hs, fn)
 		}
